@@ -171,6 +171,32 @@ def font_for_twopass(i, j, kind, rtl, k=None):
     return F
 
 
+def enum_manyrules(tier):
+    """Scale seeds: many rules ending in the same / successive success states, so that the per-position candidate list exceeds
+    the engine's fixed-size rule buffers (FiniteStateMachine::MAX_RULES = 128)."""
+    ks = (1, 43, 64, 65, 100, 127, 128, 129, 200) if tier == 'thorough' else (43, 65, 100, 129)
+    for k in ks:
+        for maxlen in (1, 2, 3, 4):
+            for order in (0, 1, 2, 3):      # 0: short rules first in the rule list, 1: long rules first, 2/3: same with sort keys DEcreasing with match depth (sort key != pattern length)
+                for act in (0, 1):          # 0: NEXT only, 1: substitute
+                    yield ('manyrules', k, maxlen, order, act)
+
+
+def font_for_manyrules(k, maxlen, order, act):
+    F = base_font(); a = {2, 3}
+    lens = list(range(1, maxlen + 1))
+    if order & 1: lens.reverse()
+    rules = []
+    for L in lens:
+        for j in range(k):
+            code = (A('PUT_GLYPH', 0, j % 2) if act else b'') + A('NEXT', 'RET_ZERO')
+            r = Rule(0, [a] * L, code)
+            if order & 2: r.sort = maxlen + 2 - L
+            rules.append(r)
+    F['silf'] = dict(version=3, passes=[dict(maxloop=3, rules=rules), fixed_attach_pass()], classes=CLASSES, nlinear=NLINEAR, iSubst=0, iPos=1, numUser=1, maxPre=1, maxPost=4)
+    return F
+
+
 def describe(item):
     if item[0] == 'action':
         _, cfg, atoms, t = item
@@ -178,6 +204,8 @@ def describe(item):
     if item[0] == 'constraint':
         _, atoms, t = item
         return dict(family='constraint', program=[CONSTRAINT_ATOMS[a][0] for a in atoms] + [CTERMS[t][0]])
+    if item[0] == 'manyrules':
+        return dict(family='manyrules', rules_per_length=item[1], max_rule_length=item[2], long_first=item[3], substitutes=item[4])
     R = twopass_rules()
     if item[0] == 'twopass':
         return dict(family='twopass', rules=[R[item[1]][0], R[item[2]][0]], kind=item[3], rtl=item[4])
@@ -188,10 +216,11 @@ def build(item):
     if item[0] == 'action': return font_for_action(item[1], item[2], item[3])
     if item[0] == 'constraint': return font_for_constraint(item[1], item[2])
     if item[0] == 'twopass': return font_for_twopass(item[1], item[2], item[3], item[4])
+    if item[0] == 'manyrules': return font_for_manyrules(item[1], item[2], item[3], item[4])
     return font_for_twopass(item[1], item[2], 0, 0, item[3])
 
 
-ENUMS = dict(action=enum_action, constraint=enum_constraint, twopass=enum_twopass)
+ENUMS = dict(action=enum_action, constraint=enum_constraint, twopass=enum_twopass, manyrules=enum_manyrules)
 
 
 def main():
